@@ -2160,6 +2160,12 @@ class Parameters:
                 )
 
             pobj = objects.get(name)
+            if (getattr(pobj, 'check_on_set', True) is False and pobj.per_instance
+                    and not getattr(self_.cls._param__private, 'disable_instance_params', False)
+                    and name not in self._param__private.params):
+                # a Selector that adds unknown values to its objects: to those
+                # of this instance's own Parameter object, not to the class's
+                self._param__private.params[name] = _instantiate_param_obj(pobj, self)
             if pobj is None or not pobj.allow_refs:
                 # Until Parameter.allow_refs=True by default we have to
                 # speculatively evaluate a values to check whether they
